@@ -4,7 +4,7 @@ import json
 import subprocess
 
 HOOK_COMMITS = subprocess.run(
-    ["git", "-C", "/repo", "log", "--format=%h %s", "--grep=^verif hooks"],
+    ["git", "-C", "/repo", "log", "--format=%h %s", "--grep=^verif hook"],
     stdout=subprocess.PIPE, text=True).stdout.strip().splitlines()
 
 ALL = [f"C{n:02d}" for n in range(1, 19)]
@@ -70,6 +70,26 @@ CHECKS = {
               "monotone, firm <= soft, each naming the block executed at that number; in-order streams never stop the executor."),
         note="Reader select loops are mirrored by the harness (insert into the real BlockCache, forward sequential blocks); channel capacities, stop heights / session restarts and rollup errors are not in the alphabet.",
         design_ref="2 C10",
+    ),
+    "C11": dict(
+        category="model_checking",
+        technique="deviation-bounded exhaustive enumeration of environment answers and crash points on the real relayer (Relayer::run, BlobSubmitter, CelestiaClient over in-memory gRPC, paused clock); strace-recorded file-system history of the real state-file writes with every crash point and torn write replayed through the real reader",
+        text=("Stage crash: every history of <= 9 (thorough 12) environment answers with <= 2 (thorough 3) deviations from the default, for "
+              "sequencer backlogs 1, 3 (thorough also 6): decision points are the account query of try_prepare {ok, crash}, BroadcastTx "
+              "{accept, reject, timeout with the tx lost / kept, crash with the tx lost / kept} and GetTx of a mempool tx {included, "
+              "pending, evicted, crash with the tx pending / included / evicted}; a crash drops the whole runtime of the relayer, leaves a "
+              "torn temp file and restarts the real Relayer::run from the state file. The fake Celestia enforces account sequences and "
+              "decodes each BlobTx to the sequencer heights it carries. Oracle after every history: confirmed heights have no gap from the "
+              "first relayed height, submissions carry consecutive heights, the relayer can start from the state file, and "
+              "last_submission names only heights (and the Celestia height) that were confirmed. Stage statefile: the real transitions "
+              "(new_from_path, into_prepared, into_started, revert, ...) run in a child under strace; for every crash point of the recorded "
+              "open/truncate, write, rename, kernel-copy history (before each call and after every byte of each write) the directory is "
+              "materialised and the real new_from_path must return the state before or after the interrupted transition."),
+        note=("Crash = process stop at an RPC boundary (every distinct combination of state-file content and Celestia-side fate of the "
+              "in-flight BlobTx arises at one); power loss reordering rename and data is outside the model. Fetching a sequencer block takes "
+              "50 virtual ms in the fake so that batching does not depend on real file-system latency. The CometBFT HTTP client is replaced "
+              "through the verif hook (chain-id check skipped, heights from a channel)."),
+        design_ref="2 C11",
     ),
     "C12": dict(
         category="model_checking",
@@ -241,8 +261,11 @@ def main():
             "guard": "verif",
             "enable": ("cargo feature `verif` on each harnessed crate: cargo --config /verif/cargo-verif.toml test --lib "
                        "-p astria-sequencer -p astria-merkle -p astria-core -p astria-conductor -p astria-sequencer-relayer "
-                       "-p astria-composer --features <crate>/verif,... with CARGO_TARGET_DIR=/verif/target; the feature only "
-                       "adds `#[cfg(all(test, feature = \"verif\"))] #[path = \"/verif/harness/...\"] mod ...;` lines"),
+                       "-p astria-composer --features <crate>/verif,... with CARGO_TARGET_DIR=/verif/target; the feature adds "
+                       "`#[cfg(all(test, feature = \"verif\"))] #[path = \"/verif/harness/...\"] mod ...;` lines and, in "
+                       "astria-sequencer-relayer, two seams: CelestiaClientBuilder::new_with_channel (gRPC channel supplied by the "
+                       "harness) and a thread-local slot from which Relayer::run takes its stream of latest sequencer heights "
+                       "(the original statements are kept under cfg(not(feature = \"verif\")))"),
             "baseline_off_cmd": "/verif/baseline_off.sh",
             "source_commits": [c.split()[0] for c in HOOK_COMMITS],
             "add_only": True,
